@@ -462,29 +462,59 @@ func stripColon(e string) string {
 type spec struct {
 	evOrg     map[int]int64
 	evTab     map[int]string
-	live      map[int]bool                      // ingested and not (supposed to be) deleted
-	tables    map[int64]map[string]bool         // created / ingested and not deleted
+	live      map[int]bool                         // ingested and not (supposed to be) deleted
+	tables    map[int64]map[string]bool            // created / ingested and not deleted
 	alias     map[int64]map[string]map[string]bool // alias -> indexes
 	adir      map[int64]bool
 	delPhase  map[int64]map[string]bool // deleted since the last restart
 	recreated map[int64]map[string]bool // ingested again after a delete in the same process
 	restarted bool
-	unrot     map[int64]map[string]bool // has flushed-but-unrotated data
-	zombies   map[int]bool              // events of an index that was deleted, re-created and deleted again in one process
+	unrot     map[int64]map[string]bool            // has flushed-but-unrotated data
+	zombies   map[int]bool                         // events of an index that was deleted, re-created and deleted again in one process
+	aliasEver map[int64]map[string]map[string]bool // alias -> indexes it ever pointed to
+	aliasCut  map[int64]map[string]bool            // alias from which at least one index was removed
 }
 
 func newSpec() *spec {
 	s := &spec{evOrg: map[int]int64{}, evTab: map[int]string{}, live: map[int]bool{},
 		tables: map[int64]map[string]bool{}, alias: map[int64]map[string]map[string]bool{}, adir: map[int64]bool{0: true},
-		delPhase: map[int64]map[string]bool{}, recreated: map[int64]map[string]bool{}, unrot: map[int64]map[string]bool{}, zombies: map[int]bool{}}
+		delPhase: map[int64]map[string]bool{}, recreated: map[int64]map[string]bool{}, unrot: map[int64]map[string]bool{}, zombies: map[int]bool{},
+		aliasEver: map[int64]map[string]map[string]bool{}, aliasCut: map[int64]map[string]bool{}}
 	for _, o := range orgs {
 		s.tables[o] = map[string]bool{}
 		s.alias[o] = map[string]map[string]bool{}
 		s.delPhase[o] = map[string]bool{}
 		s.recreated[o] = map[string]bool{}
 		s.unrot[o] = map[string]bool{}
+		s.aliasEver[o] = map[string]map[string]bool{}
+		s.aliasCut[o] = map[string]bool{}
 	}
 	return s
+}
+
+// how does expr (of org X) name table t: directly (literal / glob on the index name), through a current
+// alias, only through an alias that has been removed; cut = through a current alias that lost another index
+func (s *spec) namesHow(X int64, expr, t string) (direct, viaCur, viaRemoved, cut bool) {
+	for _, term := range strings.Split(stripColon(expr), ",") {
+		star := strings.Contains(term, "*")
+		if (star && glob(term, t)) || (!star && term == t) {
+			direct = true
+		}
+		for a, ever := range s.aliasEver[X] {
+			if !ever[t] || !((star && glob(term, a)) || (!star && term == a)) {
+				continue
+			}
+			if s.alias[X][a][t] {
+				viaCur = true
+				if s.aliasCut[X][a] {
+					cut = true
+				}
+			} else {
+				viaRemoved = true
+			}
+		}
+	}
+	return
 }
 
 // does expression expr, issued by org X, name table t (glob semantics, aliases of X)?
@@ -567,15 +597,21 @@ type opCtx struct {
 	recreated  map[string]bool
 	restarted  bool
 	aliasDirs  bool
+	viaCurOnly map[string]bool // named only through a current alias
+	viaRemoved map[string]bool // not named, but an alias that used to point to the table matches
+	cutAlias   map[string]bool // named through a current alias from which another index was removed
+	complete   bool            // the completeness side of the oracle applies to this op
 }
 
 type gen struct {
-	r      *vhlib.Rng
-	s      *spec
-	sc     *scenario
-	nextID int
-	stream string
-	willRestart bool
+	r            *vhlib.Rng
+	s            *spec
+	sc           *scenario
+	nextID       int
+	stream       string
+	willRestart  bool
+	complete     bool // this stream promises completeness (no known-defect input)
+	completePost bool // ... also after a restart (alias life-cycle streams: alias-form queries only)
 }
 
 func (g *gen) emit(op Op, c *opCtx) int {
@@ -586,7 +622,9 @@ func (g *gen) emit(op Op, c *opCtx) int {
 
 func (g *gen) ctxFor(X int64, expr string) *opCtx {
 	c := &opCtx{named: map[string]bool{}, restarted: g.s.restarted, aliasDirs: g.s.adir[X] && X != 0,
-		liveBefore: map[int]bool{}, aliasOf: map[string]map[string]bool{}}
+		liveBefore: map[int]bool{}, aliasOf: map[string]map[string]bool{},
+		viaCurOnly: map[string]bool{}, viaRemoved: map[string]bool{}, cutAlias: map[string]bool{}}
+	c.complete = g.complete && (!g.s.restarted || g.completePost)
 	for id, l := range g.s.live {
 		c.liveBefore[id] = l
 	}
@@ -610,6 +648,10 @@ func (g *gen) ctxFor(X int64, expr string) *opCtx {
 		if g.s.names(X, expr, t) {
 			c.named[t] = true
 		}
+		d, cur, rem, cut := g.s.namesHow(X, expr, t)
+		c.viaCurOnly[t] = cur && !d
+		c.viaRemoved[t] = rem && !d && !cur
+		c.cutAlias[t] = cut
 	}
 	return c
 }
@@ -621,6 +663,15 @@ func sortedIDs(m map[int]string) []int {
 	}
 	sort.Ints(ids)
 	return ids
+}
+
+func sortedAliasNames(m map[string]map[string]bool) []string {
+	var ks []string
+	for k := range m {
+		ks = append(ks, k)
+	}
+	sort.Strings(ks)
+	return ks
 }
 
 func sortedKeys(m map[string]bool) []string {
@@ -724,9 +775,11 @@ func (g *gen) delete(X int64, expr string, rotateFirst bool) {
 		c.snapBefore[i] = g.query("q_search", o, snapshotExpr)
 	}
 	g.emit(Op{Kind: "delete", Org: X, Expr: expr}, c)
-	for i, o := range orgs {
-		c.snapAfter[i] = g.query("q_search", o, snapshotExpr)
-	}
+	defer func() {
+		for i, o := range orgs {
+			c.snapAfter[i] = g.query("q_search", o, snapshotExpr)
+		}
+	}()
 	for _, t := range c.dspec {
 		for id := range g.s.live {
 			if g.s.evOrg[id] == X && g.s.evTab[id] == t {
@@ -767,11 +820,16 @@ func (g *gen) aliasOp(X int64, idx, al string, add bool) {
 				g.s.alias[X][al] = map[string]bool{}
 			}
 			g.s.alias[X][al][idx] = true
+			if g.s.aliasEver[X][al] == nil {
+				g.s.aliasEver[X][al] = map[string]bool{}
+			}
+			g.s.aliasEver[X][al][idx] = true
 		}
 	} else {
 		g.emit(Op{Kind: "unalias", Org: X, Idx: idx, Al: al}, nil)
-		if g.s.alias[X][al] != nil {
+		if g.s.alias[X][al] != nil && g.s.alias[X][al][idx] {
 			delete(g.s.alias[X][al], idx)
+			g.s.aliasCut[X][al] = true
 		}
 	}
 }
@@ -780,7 +838,7 @@ var qKinds = []string{"q_search", "q_stats", "q_spl", "q_cols", "q_search", "q_s
 
 // ---- main stream: no input of a known-defect class ----
 func genMain(r *vhlib.Rng) (*scenario, *spec) {
-	g := &gen{r: r, s: newSpec(), sc: &scenario{Stream: "main"}, stream: "main"}
+	g := &gen{r: r, s: newSpec(), sc: &scenario{Stream: "main"}, stream: "main", complete: true}
 	g.willRestart = r.Chance(45)
 	n := r.Range(14, 26)
 	// a start that makes names overlap between orgs
@@ -818,7 +876,20 @@ func genMain(r *vhlib.Rng) (*scenario, *spec) {
 			}
 			g.aliasOp(X, vhlib.Pick(r, idxPool[X]), vhlib.Pick(r, aliasPool[X]), true)
 		case w < 76:
-			g.aliasOp(X, vhlib.Pick(r, idxPool[X]), vhlib.Pick(r, aliasPool[X]), false)
+			// mostly remove an alias that exists (last alias of the index or one of several)
+			var pairs [][2]string
+			for _, a := range sortedAliasNames(g.s.alias[X]) {
+				for _, t := range sortedKeys(g.s.alias[X][a]) {
+					pairs = append(pairs, [2]string{t, a})
+				}
+			}
+			if len(pairs) > 0 && r.Chance(80) {
+				pr := vhlib.Pick(r, pairs)
+				g.aliasOp(X, pr[0], pr[1], false)
+				g.query(vhlib.Pick(r, qKinds), X, pr[1])
+			} else {
+				g.aliasOp(X, vhlib.Pick(r, idxPool[X]), vhlib.Pick(r, aliasPool[X]), false)
+			}
 		case w < 79:
 			if X != 0 && !g.willRestart && !g.s.adir[X] {
 				g.emit(Op{Kind: "mkadir", Org: X}, nil)
@@ -998,6 +1069,101 @@ func genAliasRestart(r *vhlib.Rng) (*scenario, *spec) {
 	return g.sc, g.s
 }
 
+// ---- alias life cycle (no known-defect input before a restart): an alias is added to one, two or three
+// indexes of one org, removed from one of them (the last alias of that index or not), and queried through
+// the alias name directly, by wildcards that match only the alias name, and inside comma lists;
+// both sides of the oracle apply: only indexes named through a CURRENT alias, and all of their data.
+// With a restart: org n>0 (alias directory present) must still be exact for alias-form queries;
+// org 0 loses its aliases (known finding, stream alias_restart_org0).
+func genAliasLife(r *vhlib.Rng) (*scenario, *spec) {
+	return genAliasLifeFor(r, vhlib.Pick(r, orgs), r.Chance(40))
+}
+func genAliasRestartOrg0(r *vhlib.Rng) (*scenario, *spec) { return genAliasLifeFor(r, 0, true) }
+
+func genAliasLifeFor(r *vhlib.Rng, X int64, withRestart bool) (*scenario, *spec) {
+	stream := "alias_lifecycle"
+	if X == 0 && withRestart {
+		stream = "alias_restart_org0"
+	}
+	g := &gen{r: r, s: newSpec(), sc: &scenario{Stream: stream}, complete: true, completePost: true}
+	if X != 0 {
+		g.emit(Op{Kind: "mkadir", Org: X}, nil)
+		g.s.adir[X] = true
+	}
+	// the same alias name is in use in another org, pointing elsewhere
+	Y := orgs[(int(X)+1)%3]
+	if Y != 0 {
+		g.emit(Op{Kind: "mkadir", Org: Y}, nil)
+		g.s.adir[Y] = true
+	}
+	pool := append([]string{}, idxPool[X]...)
+	for i := len(pool) - 1; i > 0; i-- {
+		j := r.Intn(i + 1)
+		pool[i], pool[j] = pool[j], pool[i]
+	}
+	A, B, C, D := pool[0], pool[1], pool[2], pool[3]
+	for _, t := range []string{A, B, C, D} {
+		g.ingest(X, t, r.Range(1, 2))
+	}
+	g.ingest(Y, idxPool[Y][0], 1)
+	g.aliasOp(Y, idxPool[Y][0], "al", true)
+	if r.Chance(40) {
+		g.rotate()
+		g.ingest(X, B, 1)
+	}
+	shared := r.Intn(3) // 0: alias only on A; 1: A and B; 2: A, B and C
+	g.aliasOp(X, A, "al", true)
+	if shared >= 1 {
+		g.aliasOp(X, B, "al", true)
+	}
+	if shared == 2 {
+		g.aliasOp(X, C, "al", true)
+	}
+	other := ""
+	for _, a := range aliasPool[X] {
+		if a != "al" {
+			other = a
+		}
+	}
+	if r.Chance(40) { // A keeps another alias: removing al is then not the removal of its last alias
+		g.aliasOp(X, A, other, true)
+	}
+	ask := func(post bool) {
+		exprs := []string{"al", "al*", "*l", "a*l", "al," + D, "zz,al", "al,al*"}
+		if !post {
+			exprs = append(exprs, other, A, "al,"+A, "*")
+		}
+		for _, e := range exprs {
+			k := vhlib.Pick(r, []string{"q_search", "q_stats", "q_spl"})
+			g.query(k, X, e)
+		}
+		g.query("q_cols", X, "al")
+		g.query("q_search", Y, "al")
+	}
+	ask(false)
+	g.aliasOp(X, A, "al", false)
+	ask(false)
+	switch r.Intn(3) {
+	case 0:
+		g.aliasOp(X, A, "al", true) // back again
+		ask(false)
+		if shared >= 1 {
+			g.aliasOp(X, B, "al", false)
+			ask(false)
+		}
+	case 1:
+		if shared >= 1 {
+			g.aliasOp(X, B, "al", false)
+			ask(false)
+		}
+	}
+	if withRestart {
+		g.restart()
+		ask(true)
+	}
+	return g.sc, g.s
+}
+
 // metrics stream: same metric names in all orgs; oracle only (the metrics store is not part of the Coq model)
 var metricNames = []string{"cpu", "mem", "cpu_total"}
 
@@ -1065,8 +1231,14 @@ func classifyUnnamed(c *opCtx, expr, tab string) string {
 			}
 		}
 	}
+	if c.viaRemoved[tab] && !c.restarted {
+		return "removed_alias_still_resolves"
+	}
 	if c.restarted && c.aliasDirs {
 		return "alias_reversed_after_restart"
+	}
+	if c.viaRemoved[tab] {
+		return "removed_alias_still_resolves"
 	}
 	return "unnamed_index_leak"
 }
@@ -1180,6 +1352,29 @@ func evalScenario(sum *vhlib.Summary, mu *sync.Mutex, si int, sc *scenario, obs 
 					fail(cl, fmt.Sprintf("%s org=%d expr=%q returned event %d of deleted index %q", op.Kind, op.Org, op.Expr, id, et), i)
 				}
 			}
+			if c.complete && o.Err == "" {
+				got := map[int]bool{}
+				for _, id := range o.Ids {
+					got[id] = true
+				}
+				for _, id := range sortedIDs(g.evTab) {
+					et := g.evTab[id]
+					if got[id] || !c.liveBefore[id] || g.evOrg[id] != op.Org || !c.named[et] {
+						continue
+					}
+					cl := "named_index_data_missing"
+					switch {
+					case c.viaCurOnly[et] && c.restarted && op.Org == 0:
+						cl = "alias_lost_after_restart"
+					case c.viaCurOnly[et] && c.cutAlias[et]:
+						cl = "shared_alias_lost_for_other_index"
+					case c.viaCurOnly[et]:
+						cl = "aliased_index_data_missing"
+					}
+					fail(cl, fmt.Sprintf("%s org=%d expr=%q does not return event %d of index %q, which the expression names%s", op.Kind, op.Org, op.Expr, id, et,
+						map[bool]string{true: " through a current alias", false: ""}[c.viaCurOnly[et]]), i)
+				}
+			}
 		case "q_cols":
 			sum.Eval(fmt.Sprintf("%s/%d/%d", sc.Stream, si, i), len(o.Names) > 0)
 			sum.Count("op/q_cols")
@@ -1265,7 +1460,6 @@ func appendNote(notes []string, n string) []string {
 	}
 	return notes
 }
-
 
 // ---------- Coq terms ----------
 func coqOp(op Op) string {
@@ -1398,6 +1592,8 @@ func main() {
 	mk(genGhostColsS, nKnown)
 	mk(genAliasRestartS, nKnown)
 	mk(wrap(genMetrics), 2*nKnown)
+	mk(wrap(genAliasLife), 4*nKnown)
+	mk(wrap(genAliasRestartOrg0), 2)
 
 	// run
 	par := 6
@@ -1484,6 +1680,7 @@ var lastSpec *spec
 func wrap(f func(*vhlib.Rng) (*scenario, *spec)) func(*vhlib.Rng) *scenario {
 	return func(r *vhlib.Rng) *scenario { sc, g := f(r); lastSpec = g; return sc }
 }
+
 var genMainS = wrap(genMain)
 var genMetaS = wrap(genMeta)
 var genCrossDeleteS = wrap(genCrossDelete)
